@@ -249,6 +249,9 @@ func (cr *checkRun) runUnit(full string) {
 			}
 			continue
 		}
+		if o.Kind == "variant.auto" {
+			continue // candidate variants belong to the termination sweep (C10), where only the discharged ones are claimed
+		}
 		if con := cr.prog.Contracts[full]; con != nil && con.Sweep {
 			// partial ("sweep") contract: only the contract's own clauses are claimed, not the safety obligations
 			switch o.Kind {
